@@ -792,6 +792,31 @@ impl<M: Mk> Sim<M> {
         Ok(())
     }
 
+    /// The marker component of a marked entity is removed by hand, the entity is marked again (a new id)
+    /// and the allocator is re-synchronised at once, as a program that edits marker storages directly has
+    /// to. From here on the old id is unknown to the world: data mentioning it creates a new entity.
+    fn unmark_remark_sync(&mut self, slot: usize, ev: &mut Ev) -> R {
+        let e = self.ents[slot].e;
+        let old = match self.ents[slot].marker {
+            Some(id) => id,
+            None => return Ok(()),
+        };
+        {
+            let mut st = self.world.write_storage::<M>();
+            st.remove(e);
+        }
+        self.ents[slot].marker = None;
+        self.stale.insert(old);
+        ev.log(format!("{}: marker storage.remove({}) (was {})", self.name, se(e), show(old)));
+        self.mark(slot, "C15", ev)?;
+        if self.ents[slot].marker == Some(old) {
+            return Err(("C15", "re-marking returned the removed id", format!("re-marking {} after its marker was removed returned the old id {}", se(e), show(old))));
+        }
+        self.alloc_maintain(ev);
+        ev.bump("unmark_remark_sync", 1);
+        Ok(())
+    }
+
     fn died(&mut self, slot: usize) {
         self.ents[slot].live = false;
         if let Some(id) = self.ents[slot].marker {
@@ -1719,6 +1744,7 @@ enum Op {
     CreateUnmarked,
     Mark,
     MarkAgain,
+    UnmarkRemarkSync,
     DeleteNow,
     DeleteDeferred,
     Maintain,
@@ -1862,6 +1888,7 @@ fn c15_case<M: Mk>(rng: &mut Rng, ops: usize, ev: &mut Ev) -> R<Outcome> {
                 (Op::CreateUnmarked, grow / 2),
                 (Op::Mark, 8),
                 (Op::MarkAgain, 8),
+                (Op::UnmarkRemarkSync, 4),
                 (Op::DeleteNow, 10 * shrink),
                 (Op::DeleteDeferred, 7 * shrink),
                 (Op::Maintain, 9),
@@ -1893,6 +1920,13 @@ fn c15_case<M: Mk>(rng: &mut Rng, ops: usize, ev: &mut Ev) -> R<Outcome> {
                 if !c.is_empty() {
                     let s = *rng.pick(&c);
                     t.mark(s, "C15", ev)?;
+                }
+            }
+            Op::UnmarkRemarkSync => {
+                let b = t.marked_slots();
+                if !b.is_empty() {
+                    let s = *rng.pick(&b);
+                    t.unmark_remark_sync(s, ev)?;
                 }
             }
             Op::DeleteNow | Op::DeleteDeferred | Op::DeleteNowMarked | Op::DeleteDeferredMarked => {
